@@ -201,6 +201,47 @@ theorem C04_clear_position_matters :
     passesAfter true (fun _ => 0) (Cache.init 12) [.dropped [.direct [97]]] 0 [.direct [100, 100, 100, 100, 100]] =
       (9, some [5, 0, 0, 0, 100, 100, 100, 100, 100]) := by decide
 
+/-- **every statement is formatted from its own decoded arguments only.** The backend has ONE argument store for all
+    statements of all threads and loggers. Whatever was decoded before — any history `hist` of records (any shapes,
+    any bytes, decodable or not) starting from any store `s0` — decoding statement `n` (`decode_and_store_args`, which
+    clears the store first *whatever the argument count*) yields the store a fresh backend would hold, and hence the same
+    sink text and the same number of error reports for every `fmt`, format string, error text and printable predicate:
+    they are a function of statement `n`'s shapes and bytes alone. For a well-formed argument list written by the
+    encode pass that store holds exactly the documented values `viewL args` and the string-related flag of the
+    statement's own shapes — for the empty argument list: no value at all (so a format string with a placeholder cannot
+    be satisfied by someone else's argument) and no sanitising. -/
+theorem C04_store_per_statement (old : Mem) (s0 : Store) (hist : List (List Shape × Nat × Bytes)) (shapes : List Shape)
+    (pos : Nat) (bs : Bytes) (p : Option Printable) (fmt : Bytes → List Val → Option Bytes) (err : Bytes → Bytes)
+    (fmtStr : Bytes) :
+    decodeStatement shapes pos bs (storeAfter true s0 hist) = decodeStatement shapes pos bs Store.empty ∧
+    ((decodeStatement shapes pos bs (storeAfter true s0 hist)).map (fun r => storeText p fmt err fmtStr r.1) =
+      (decodeStatement shapes pos bs Store.empty).map (fun r => storeText p fmt err fmtStr r.1)) ∧
+    (∀ (args : List Arg) (rest : Bytes), wfL args = true →
+      decodeStatement (shapesOf args) pos (encL old pos args ++ rest) (storeAfter true s0 hist) =
+        some ({ vals := viewL args, stringRelated := (shapesOf args).any stringRelated }, rest)) ∧
+    decodeStatement [] pos bs (storeAfter true s0 hist) = some (Store.empty, bs) := by
+  have indep : ∀ (sh : List Shape) (b : Bytes) (prev : Store),
+      decodeStatement sh pos b prev = decodeStatement sh pos b Store.empty := by
+    intro sh b prev; simp [decodeStatement, decodeStatementAt]
+  refine ⟨indep _ _ _, by rw [indep], fun args rest h => ?_, ?_⟩
+  · simp [decodeStatement, decodeStatementAt, decodeL_spec old args pos rest h]
+  · simp [decodeStatement, decodeStatementAt, decodeL, Store.empty]
+
+/-- **why the reset must not depend on the argument count** (the variant `clearFirst = false`, which skips
+    `clear()` for a statement without arguments, refuted by a concrete witness): after a record carrying the `int32_t`
+    4242 and the C string "a", a zero-argument statement still finds both in the store and the string-related flag set;
+    with a `fmt` that needs one argument (a format string with one placeholder) it is written as that foreign value
+    instead of the error text, nothing is reported, and a tab in an argument-less message would be sanitised. With the
+    unconditional `clear()` the same history gives the empty store, the error text and one report. -/
+theorem C04_store_reset_skipped_leaks :
+    let prev := storeAfter false Store.empty [([.prim .arith 4, .cstr], 0, [146, 16, 0, 0, 97, 0])]
+    let fmt : Bytes → List Val → Option Bytes := fun _ vs => match vs with | .prim b :: _ => some b | _ => none
+    let err : Bytes → Bytes := fun _ => [69]
+    (decodeStatementAt false [] 0 [] prev).map (fun r => (r.1.vals.length, r.1.stringRelated)) = some (2, true) ∧
+    (decodeStatementAt false [] 0 [] prev).map (fun r => storeText none fmt err [] r.1) = some ([146, 16, 0, 0], 0) ∧
+    (decodeStatementAt true [] 0 [] prev).map (fun r => (r.1.vals.length, r.1.stringRelated)) = some (0, false) ∧
+    (decodeStatementAt true [] 0 [] prev).map (fun r => storeText none fmt err [] r.1) = some ([69], 1) := by decide
+
 /-- **sanitiser.** The sink text is the message with exactly the bytes failing the printable predicate replaced by
     `\xHH` (backslash, `x`, two upper-case hex digits of the byte), every other byte kept, order kept; … -/
 theorem C04_sanitize_spec (p : Printable) (s : Bytes) :
